@@ -30,6 +30,8 @@ func prodCampaign(rc *RunCtx, chains, steps int) {
 				}
 			case 3:
 				gs.MaxMessageBodySize.Amount = 132
+			case 4: // a fiat-token-factory whose minting denom is spelled with upper-case letters
+				cfg.MintDenom = "uUSDC"
 			}
 		})
 		if err != nil {
